@@ -1,0 +1,92 @@
+//go:build verif
+// +build verif
+
+// Verification hook for property C10 (build tag "verif"), second file: what
+// the real assemble() stores in result.js for a configuration (Config,
+// ConfigHash, ConfigHTML, Steps).  Only adds an exported entry point that
+// calls the package's unexported functions unchanged.
+
+package cmd
+
+import (
+	"context"
+	"fmt"
+	"io/ioutil"
+	"os"
+	"path/filepath"
+
+	"github.com/knz/shakespeare/pkg/crdb/log"
+)
+
+// VerifC10Assembled is the configuration part of the Result assemble() builds.
+type VerifC10Assembled struct {
+	Config         string
+	ConfigHash     uint32
+	ConfigHashHTML string
+	ConfigHTML     string
+	Steps          string
+	Err            string // the configuration was rejected
+	Panic          string
+}
+
+// VerifC10Assemble loads the configuration the way VerifC10Parse does
+// (parseDefines, newReader, parseCfg, compileV2) and calls the real
+// app.assemble on it, with no play having run.  Must run inside
+// VerifLogScope.
+func VerifC10Assemble(files map[string]string, mainFile string, defines, includePath []string) (res VerifC10Assembled) {
+	tmp, err := ioutil.TempDir("", "shk-verif-c10a")
+	if err != nil {
+		panic(err)
+	}
+	defer os.RemoveAll(tmp)
+	for name, data := range files {
+		p := filepath.Join(tmp, name)
+		if err := os.MkdirAll(filepath.Dir(p), 0755); err != nil {
+			panic(err)
+		}
+		if err := ioutil.WriteFile(p, []byte(data), 0644); err != nil {
+			panic(err)
+		}
+	}
+	var ip []string
+	for _, p := range includePath {
+		ip = append(ip, filepath.Join(tmp, p))
+	}
+	defer func() {
+		if r := recover(); r != nil {
+			res.Panic = fmt.Sprintf("%v", r)
+		}
+	}()
+	ctx := context.Background()
+	cfg := newConfig()
+	cfg.narration = ioutil.Discard
+	cfg.avoidTimeProgress = true
+	cfg.defines = defines
+	cfg.includePath = ip
+	if err := cfg.parseDefines(); err != nil {
+		res.Err = err.Error()
+		return res
+	}
+	rd, err := newReader(ctx, mainFile, ip)
+	if err != nil {
+		res.Err = err.Error()
+		return res
+	}
+	defer rd.close()
+	if err := cfg.parseCfg(ctx, rd); err != nil {
+		res.Err = err.Error()
+		return res
+	}
+	if err := cfg.compileV2(); err != nil {
+		res.Err = err.Error()
+		return res
+	}
+	ap := newApp(ctx, cfg)
+	defer ap.close()
+	// short-lived logger: give its file back when done
+	defer log.VerifRelease(ap.log)
+	r := ap.assemble(ctx, nil)
+	res.Config, res.ConfigHash, res.ConfigHashHTML = r.Config, r.ConfigHash, r.ConfigHashHTML
+	res.ConfigHTML, res.Steps = r.ConfigHTML, r.Steps
+	return res
+}
